@@ -1,7 +1,7 @@
 (* Correspondence for the builder model (Rep/Builder.v): what rel.NewSet / rel.NewTuple produce through the public
    API (Go type names, Count(), members, Equal()) against `construct`, `rmembers`, `rcount`, `rep_equal`, and the
    property oracle (the built value denotes exactly the members it was given; Equal is equality of denotations). *)
-From Arrai Require Import Base.Val Spec.SetAlg Eval.Interp Check.EvalCheck Rep.Builder.
+From Arrai Require Import Base.Val Spec.SetAlg Eval.Interp Check.EvalCheck Rep.Builder Proofs.BuilderAllP.
 
 (* Go type of a value, as a code (harness/c02.go typeCode) *)
 Definition rtype (r : rep) : Z :=
@@ -139,6 +139,15 @@ Definition model_one (c : cons) (o : obsres) : Z :=
   | BUnspec, _ => 0
   end.
 
+(* the hypothesis `equal_sound_on` of C02_builder_denotes_members, evaluated on the members of every set that is built *)
+Fixpoint sound_everywhere (c : cons) : bool :=
+  match c with
+  | CNum _ => true
+  | CTup l => forallb (fun p => sound_everywhere (snd p)) l
+  | CSet l => forallb sound_everywhere l &&
+              match bres_all (map construct l) with BOk ms => equal_sound_onb ms | _ => true end
+  end.
+
 Definition first_nz (l : list Z) : Z := fold_right (fun x acc => if Z.eqb x 0 then acc else x) 0 l.
 
 (* 0  agree
@@ -148,6 +157,8 @@ Definition first_nz (l : list Z) : Z := fold_right (fun x acc => if Z.eqb x 0 th
    4  Go type / Count / members differ from the model          (correspondence)
    5  panic on one side only                                    (correspondence)
    6  Equal differs from rep_equal                               (correspondence)
+   7  outside every region, Equal identifies two components of a built set that denote different values:
+      the hypothesis of C02_builder_denotes_members fails     (correspondence)
    reported = code + 100 * region (1 superimposed items, 2 byte gaps, 3 ill-typed sugar tuple, 4 bucket keys) *)
 Definition classifyB (k : bcase) : Z :=
   let va := denote (b_a k) in
@@ -167,7 +178,8 @@ Definition classifyB (k : bcase) : Z :=
     end in
   let prop := first_nz [oracle_one (b_a k) (b_oa k); oracle_one (b_b k) (b_ob k); p_eq] in
   let model := if Z.eqb region 4 then 0      (* which bucket survives depends on Go's map iteration order *)
-               else first_nz [model_one (b_a k) (b_oa k); model_one (b_b k) (b_ob k); m_eq] in
+               else first_nz [model_one (b_a k) (b_oa k); model_one (b_b k) (b_ob k); m_eq;
+                              if Z.eqb region 0 && negb (sound_everywhere (b_a k) && sound_everywhere (b_b k)) then 7 else 0] in
   let code := if Z.eqb prop 0 then model else prop in
   if Z.eqb code 0 then 0 else code + 100 * region.
 
